@@ -38,7 +38,8 @@ def add_set(stats, key, value):
 
 def merge_stats(into, other):
     for k, v in other['counters'].items():
-        if k in ('slowest_run_s', 'largest_rule_cache_entries', 'largest_sentence_words', 'largest_tag_inventory'):
+        if k in ('slowest_run_s', 'largest_rule_cache_entries', 'largest_sentence_words', 'largest_tag_inventory', 'largest_document_sentences',
+                 'largest_document_distinct_categories', 'largest_k', 'largest_derivation_count'):
             into['counters'][k] = max(into['counters'].get(k, 0.0), v)
         else:
             into['counters'][k] = into['counters'].get(k, 0) + v
